@@ -64,6 +64,25 @@ Definition check_vec (k : okind) (agents : list nat) (Es : list senv) (seed : se
   vobs_eqb agents o (fst oreset) && vinfo_eqb agents vi (snd oreset)
   && check_steps k agents Es st steps counters.
 
+(* a whole history: reset(seed, options) and step(actions) calls in any order, from construction *)
+Inductive oevent :=
+| OEStep (acts : dict (list Z)) (ob : ostep)
+| OEReset (sd : seedspec) (opt : option Z) (ob : dict (list varr) * vinfo).
+Fixpoint check_events (k : okind) (agents : list nat) (Es : list senv) (st : vstate)
+         (evs : list oevent) (counters : list (nat * nat)) : bool :=
+  match evs with
+  | [] => list_eqb (pair_eqb Nat.eqb Nat.eqb) (map (fun s => (ord s, tm s)) (vstates st)) counters
+  | OEStep acts ob :: rest =>
+      let '(st', o) := vec_step k agents Es st acts in
+      vout_eqb agents o ob && check_events k agents Es st' rest counters
+  | OEReset sd opt ob :: rest =>
+      let '(st', (o, vi)) := vec_reset k agents Es st sd opt in
+      vobs_eqb agents o (fst ob) && vinfo_eqb agents vi (snd ob) && check_events k agents Es st' rest counters
+  end.
+Definition check_vec_events (k : okind) (agents : list nat) (Es : list senv) (evs : list oevent)
+           (counters : list (nat * nat)) : bool :=
+  check_events k agents Es (vec_init k agents Es) evs counters.
+
 (* ---- the single-environment auto-reset wrapper ---- *)
 Definition trans_eqb (a b : trans) : bool :=
   dict_eqb obs_eqb (tobs a) (tobs b) && dict_eqb Z.eqb (trew a) (trew b)
@@ -76,6 +95,18 @@ Fixpoint check_wsteps (E : senv) (s : sstate) (steps : list (list Z * trans)) (c
   | (acts, ob) :: rest =>
       let '(s', o) := wrapper_step E s acts in trans_eqb o ob && check_wsteps E s' rest counter
   end.
+
+Inductive owevent := OWStep (acts : list Z) (ob : trans) | OWReset (ra : rarg) (ob : dict obs_t * dict info_t).
+Fixpoint check_wevents (E : senv) (s : sstate) (evs : list owevent) (counter : nat * nat) : bool :=
+  match evs with
+  | [] => pair_eqb Nat.eqb Nat.eqb (ord s, tm s) counter
+  | OWStep acts ob :: rest => let '(s', o) := wrapper_step E s acts in trans_eqb o ob && check_wevents E s' rest counter
+  | OWReset ra ob :: rest =>
+      let '(s', (o, i)) := env_reset E s ra in
+      dict_eqb obs_eqb o (fst ob) && dict_eqb info_eqb i (snd ob) && check_wevents E s' rest counter
+  end.
+Definition check_wrapper_events (E : senv) (evs : list owevent) (counter : nat * nat) : bool :=
+  check_wevents E init_state evs counter.
 
 Definition check_wrapper (E : senv) (seed : rarg) (oreset : dict obs_t * dict info_t)
            (steps : list (list Z * trans)) (counter : nat * nat) : bool :=
